@@ -35,6 +35,8 @@ func (rl *RateLimiter) acquirePermission(count int) (ok bool, wait time.Duration
   ensures reject-iff-horizon-full: let c = cyc(rl, clock) in (old(rl.state) != StateDisabled ==> (ok <==> old(shifted(rl, c)) < horizon(rl)))
   ensures reject-changes-nothing: old(rl.state) != StateDisabled && !ok ==> wait == T(rl) && rl.tokens == old(rl.tokens) && rl.cycle == old(rl.cycle) && rl.state == old(rl.state)
   ensures spare-permit-immediate: let c = cyc(rl, clock) in (old(rl.state) != StateDisabled && old(shifted(rl, c)) < L(rl) ==> ok && wait == 0)
+  assert quotient-bound: let c = cyc(rl, clock) in (ok && old(rl.state) != StateDisabled ==> old(shifted(rl, c)) / L(rl) <= T(rl) / P(rl))
+  assert release-time: let c = cyc(rl, clock) in (ok && old(rl.state) != StateDisabled && wait > 0 ==> clock + wait - rl.startTime == P(rl) * (c + old(shifted(rl, c)) / L(rl)))
   assert release-cycle: let c = cyc(rl, clock) in (ok && old(rl.state) != StateDisabled && wait > 0 ==> cyc(rl, clock + wait) == c + old(shifted(rl, c)) / L(rl))
   ghost at return: rl.rel[cyc(rl, clock + wait)] := (ok && old(rl.state) != StateDisabled) ? rl.rel[cyc(rl, clock + wait)] + 1 : rl.rel[cyc(rl, clock + wait)]
 @*/
